@@ -14,8 +14,8 @@
   every step (Lemmas/Scale*.lean, Lemmas/HAScale.lean) + `getNBest` depends on the order of the values only (C09).
   PreferenceAddition (Bucklin / Oklahoma, any coefficients, any number of seats) and Baldwin: the n-seat models of the C08
   extension (VotelibModel/ShapeSequential.lean).
-  Not proved (listed in the evidence as `unproved`): Tideman alternative with several seats (the implementation always raises
-  there); MajorityJudgment's default tie-break is scale dependent (open finding).
+  Not proved (listed in the evidence as `unproved`): only MajorityJudgment with the default tie-break, which is scale
+  DEPENDENT (open finding).
 -/
 import VotelibProofs.Props.C09
 import VotelibProofs.Lemmas.HAScale
@@ -203,9 +203,14 @@ theorem condorcetSetRule_scale (s : C11F.CondorcetSet) (k : Rat) (hk : 0 < k) (p
 theorem benham_scale (k : Rat) (hk : 0 < k) (p : Condorcet.Profile) :
     Condorcet.benham (scaleRanked k p) = Condorcet.benham p := VL.Scale.benham_scale k hk p
 
-/-- **Tideman's alternative method** (Smith or Schwartz set, else eliminate). -/
+/-- **Tideman's alternative method**, one seat (Smith or Schwartz set, else eliminate; a lone candidate takes the seat). -/
 theorem tideman_scale (k : Rat) (hk : 0 < k) (smith : Bool) (p : Condorcet.Profile) :
     Condorcet.tideman smith (scaleRanked k p) = Condorcet.tideman smith p := VL.Scale.tideman_scale k hk smith p
+
+/-- **Tideman's alternative method, any number of seats**: one tier per seat, the winners of earlier tiers removed from the
+    ballots (linear subsetting) — every tier is simulated. -/
+theorem tidemanN_scale (k : Rat) (hk : 0 < k) (smith : Bool) (p : Condorcet.Profile) (n : Nat) :
+    Condorcet.tidemanN smith (scaleRanked k p) n = Condorcet.tidemanN smith p n := VL.Scale.tidemanN_scale k hk smith p n
 
 /-! ### proportional approval -/
 
@@ -382,6 +387,9 @@ example : ShapeSeq.baldwin (scaleProfile ((10:Rat)^25 + 7)
 example : ShapeSeq.preferenceAddition ShapeSeq.coefOklahoma true (scaleProfile ((10:Rat)^25 + 7)
     [([.one 1, .one 2, .one 3], 2), ([.one 3, .shared [1, 2]], 2), ([.one 2, .one 3], 1)]) 2 = .ok [Slot.cand 3, Slot.tie [1, 2]] := by
   decide +kernel
+example : Condorcet.tidemanN true (scaleRanked ((10:Rat)^25 + 7)
+    [([.one 1, .one 2, .one 3], 2), ([.one 2, .one 3, .one 1], 2), ([.one 3, .one 1, .one 2], 1)]) 2
+    = .ok [Slot.cand 1, Slot.cand 2] := by decide +kernel
 example : relativeThreshold (1/3) false (scaleVotes ((10:Rat)^25 + 7) [(1,2),(2,1),(3,3)]) = .ok [3] := by decide +kernel
 example : getNBest (scaleVotes ((10:Rat)^25 + 7) [(1,5),(2,3),(3,3)]) 2 = [Slot.cand 1, Slot.tie [2,3]] := by decide +kernel
 
